@@ -55,3 +55,35 @@ def stmt_of(n):
     while n is not None and not isinstance(n, ast.stmt):
         n = getattr(n, "_parent", None)
     return n
+
+
+def expect_assign(ctx, rule, unit, qn, scope, target_src, expected, site, why, ok_note="", all_sites=False):
+    """Judge `target = value` statements of `scope` (a function / loop node): the value must be canonically equal to one of
+    `expected` (source texts). No assignment to that target -> unrecognised (cannot judge); a different value -> violation.
+    returns the matching statement or None"""
+    cands = [s for s in ast.walk(scope) if isinstance(s, (ast.Assign, ast.AugAssign)) and any(
+        norm_src(t) == target_src for t in (s.targets if isinstance(s, ast.Assign) else [s.target]))]
+    if not cands:
+        ctx.unrecognised(rule, site, f"no assignment to {target_src}")
+        return None
+    good = [c for c in cands if isinstance(c, ast.Assign) and any(canon_equal(c.value, e) for e in expected)]
+    if good and (not all_sites or len(good) == len(cands)):
+        ctx.ok(rule, site, ok_note or f"{target_src} = {norm_src(good[0].value)[:80]}")
+        return good[0]
+    bad = next(c for c in cands if c not in good)
+    ctx.violation(rule, unit.relpath, qn, norm_src(bad)[:200], f"{why} (found `{norm_src(bad)[:120]}`, expected {target_src} = {expected[0]})", line=bad.lineno, site=site)
+    return None
+
+
+def expect_call(ctx, rule, unit, qn, scope, callee, site, why, args=None, present_only=False):
+    """a call of `callee` (dotted name) must exist in scope; optionally with the given normalised positional args"""
+    from .astutil import call_name
+    calls = [n for n in ast.walk(scope) if isinstance(n, ast.Call) and call_name(n) == callee]
+    if not calls:
+        ctx.unrecognised(rule, site, f"no call of {callee}")
+        return None
+    if args is None or any([norm_src(a) for a in c.args] == args for c in calls):
+        ctx.ok(rule, site, norm_src(calls[0])[:100])
+        return calls[0]
+    ctx.violation(rule, unit.relpath, qn, norm_src(stmt_of(calls[0]))[:200], f"{why} (found `{norm_src(calls[0])[:120]}`)", line=calls[0].lineno, site=site)
+    return None
